@@ -157,6 +157,7 @@ structure M where
   sdict : Dict Res := []                       -- shared manager dict (C06)
   trk : List (Nat × Tracker) := []             -- trackers by id (C19 / C15)
   smbo : SmboState := {}                       -- X/Y/candidates of a model-based optimizer (C17)
+  pending : Array Draw := #[]                  -- tape entries read since the last run (flushed into the loaded complete backend)
 
 def M.obj (m : M) : Obj := fun callIdx stepIdx _ =>
   if m.byCall.size > 0 then m.byCall.getD callIdx ({ score := .nan, metrics := [("ORACLE", "exhausted")] }, 0)
@@ -187,6 +188,20 @@ def showResult (d : DState Script) (r : CallResult) : String :=
   s!"rows={d.rows.length} ninit={d.nInitTotal} niter={d.nIterTotal} ncalls={d.nCalls} " ++
   s!"nevalT={d.evalT.length} niterT={d.iterT.length} left={d.bst.queue.length}"
 
+/-- append the buffered tape entries to the tape of the loaded complete backend -/
+def flushTape (m : M) : M :=
+  if m.pending.isEmpty then m else
+  let es := m.pending.toList
+  let b := m.d.bst
+  let b' : Script :=
+    match b.loc, b.grid, b.pt, b.pat with
+    | some (cfg, l), _, _, _ => { b with loc := some (cfg, { l with tape := l.tape ++ es }) }
+    | none, some (cfg, g), _, _ => { b with grid := some (cfg, { g with tape := g.tape ++ es }) }
+    | none, none, some (cfg, g), _ => { b with pt := some (cfg, { g with pop := { g.pop with tape := g.pop.tape ++ es } }) }
+    | none, none, none, some (cfg, g) => { b with pat := some (cfg, { g with tape := g.tape ++ es }) }
+    | none, none, none, none => b
+  { m with d := { m.d with bst := b' }, pending := #[] }
+
 /-- run the pending call; output = one line per step of this call, then the result line -/
 def runCall (m : M) : M × List String :=
   match m.call with
@@ -208,6 +223,26 @@ def runCall (m : M) : M × List String :=
         s!"evalT={showRat (newEval.getD k 0)} iterT={showRat (newIter.getD k 0)}")
       let traceLine := "trace " ++ " ".intercalate ((d'.trace.drop tr0).map showEv)
       ({ m with d := d', call := none, warm := [] }, stepLines ++ [traceLine, showResult d' res])
+
+/-- one tape entry (`lt <kind> …`) -/
+def pDraw (nd : Nat) : P Draw := do
+  let k ← tok
+  match k with
+  | "u" => do let x ← pRat; pure (Draw.unif x)
+  | "c" => do let p ← pN nd pInt; let e ← pRat; pure (Draw.climb p e)
+  | "d" => do let p ← pN nd pInt; let v ← pN nd pF; pure (Draw.dist p v)
+  | "r" => do let p ← pN nd pInt; pure (Draw.rnd p)
+  | "f" => do let p ← pN nd pInt; let b ← pBool; pure (Draw.feas p b)
+  | "a" => do let pa ← pF; let r ← pRat; pure (Draw.accept pa r)
+  | "p" => do let p ← pN nd pInt; let v ← pN nd pF; pure (Draw.part p v)
+  | "s" => do let v ← pN nd pF; pure (Draw.spiral v)
+  | "o" => do let l ← pList pNat; pure (Draw.sorted l)
+  | "i" => do let k ← pNat; pure (Draw.int k)
+  | "n" => do let x ← pRat; pure (Draw.npunif x)
+  | "h" => do let l ← pList pNat; pure (Draw.choice l)
+  | "m" => do let v ← pN nd pF; pure (Draw.mutant v)
+  | "g" => do let l ← pList pNat; pure (Draw.parents l)
+  | k => throw s!"draw? {k}"
 
 def showNatLists (l : List (List Nat)) : String := showList (showList toString) l
 
@@ -267,7 +302,7 @@ def exec (m : M) (cmd : String) : P (M × List String) := do
   -- ---------------- driver level
   | "dnew" => do
     let n ← pNat
-    pure ({ m with d := { nInits := n, bst := {} }, call := none, warm := [], steps := #[], byCall := #[] }, ["ok"])
+    pure ({ m with d := { nInits := n, bst := {} }, call := none, warm := [], steps := #[], byCall := #[], pending := #[] }, ["ok"])
   | "dshared" => do
     let ents ← pList (do let p ← pN m.sp.dims.length pInt; let r ← pRes; pure (p, r))
     pure ({ m with d := { m.d with shared := Dict.update [] ents } }, ["ok"])
@@ -311,36 +346,10 @@ def exec (m : M) (cmd : String) : P (M × List String) := do
       | "annealing" => pure LocalKind.randomAnnealing
       | k => throw s!"kind? {k}"
     let cfg : LocalCfg := { kind := kind, nNeighbours := nNb, randRestP := rrp, geo := m.sp.geo }
-    pure ({ m with d := { nInits := nInits, bst := { loc := some (cfg, { initL := initL }) } }, call := none, warm := [], steps := #[], byCall := #[] }, ["ok"])
+    pure ({ m with d := { nInits := nInits, bst := { loc := some (cfg, { initL := initL }) } }, call := none, warm := [], steps := #[], byCall := #[], pending := #[] }, ["ok"])
   | "lt" => do
-    let k ← tok
-    let nd := m.sp.dims.length
-    let e : Draw ← match k with
-      | "u" => do let x ← pRat; pure (Draw.unif x)
-      | "c" => do let p ← pN nd pInt; let e ← pRat; pure (Draw.climb p e)
-      | "d" => do let p ← pN nd pInt; let v ← pN nd pF; pure (Draw.dist p v)
-      | "r" => do let p ← pN nd pInt; pure (Draw.rnd p)
-      | "f" => do let p ← pN nd pInt; let b ← pBool; pure (Draw.feas p b)
-      | "a" => do let pa ← pF; let r ← pRat; pure (Draw.accept pa r)
-      | "p" => do let p ← pN nd pInt; let v ← pN nd pF; pure (Draw.part p v)
-      | "s" => do let v ← pN nd pF; pure (Draw.spiral v)
-      | "o" => do let l ← pList pNat; pure (Draw.sorted l)
-      | "i" => do let k ← pNat; pure (Draw.int k)
-      | "n" => do let x ← pRat; pure (Draw.npunif x)
-      | "h" => do let l ← pList pNat; pure (Draw.choice l)
-      | "m" => do let v ← pN nd pF; pure (Draw.mutant v)
-      | "g" => do let l ← pList pNat; pure (Draw.parents l)
-      | k => throw s!"draw? {k}"
-    match m.d.bst.loc, m.d.bst.grid with
-    | some (cfg, l), _ => pure ({ m with d := { m.d with bst := { m.d.bst with loc := some (cfg, { l with tape := l.tape ++ [e] }) } } }, [])
-    | none, some (cfg, g) => pure ({ m with d := { m.d with bst := { m.d.bst with grid := some (cfg, { g with tape := g.tape ++ [e] }) } } }, [])
-    | none, none =>
-      match m.d.bst.pt with
-      | some (cfg, g) => pure ({ m with d := { m.d with bst := { m.d.bst with pt := some (cfg, { g with pop := { g.pop with tape := g.pop.tape ++ [e] } }) } } }, [])
-      | none =>
-        match m.d.bst.pat with
-        | some (cfg, g) => pure ({ m with d := { m.d with bst := { m.d.bst with pat := some (cfg, { g with tape := g.tape ++ [e] }) } } }, [])
-        | none => throw "no complete backend"
+    let e ← pDraw m.sp.dims.length
+    pure ({ m with pending := m.pending.push e }, [])
   | "gnew" => do
     let nInits ← pNat
     let dirTok ← tok
@@ -352,7 +361,7 @@ def exec (m : M) (cmd : String) : P (M × List String) := do
       | "orthogonal" => pure GridDir.orthogonal
       | k => throw s!"direction? {k}"
     let cfg : GridCfg := { dir := dir, stepSize := step, dims := m.sp.sizes, dirStart := dirStart, geo := m.sp.geo }
-    pure ({ m with d := { nInits := nInits, bst := { grid := some (cfg, { initL := initL }) } }, call := none, warm := [], steps := #[], byCall := #[] }, ["ok"])
+    pure ({ m with d := { nInits := nInits, bst := { grid := some (cfg, { initL := initL }) } }, call := none, warm := [], steps := #[], byCall := #[], pending := #[] }, ["ok"])
   | "gstate" =>
     match m.d.bst.grid with
     | some (_, g) =>
@@ -378,7 +387,7 @@ def exec (m : M) (cmd : String) : P (M × List String) := do
       | "de" => pure (PopCfg.de { member := hc, epsMod := eps })
       | "ga" => pure (PopCfg.ga { member := hc, mutationRate := mrate, nOffspring := nSwap, epsMod := eps })
       | k => throw s!"population kind? {k}"
-    pure ({ m with d := { nInits := nInits, bst := { pt := some (cfg, { pop := { members := members } }) } }, call := none, warm := [], steps := #[], byCall := #[] }, ["ok"])
+    pure ({ m with d := { nInits := nInits, bst := { pt := some (cfg, { pop := { members := members } }) } }, call := none, warm := [], steps := #[], byCall := #[], pending := #[] }, ["ok"])
   | "pstate" =>
     match m.d.bst.pt with
     | some (_, g) =>
@@ -391,7 +400,7 @@ def exec (m : M) (cmd : String) : P (M × List String) := do
     let rrp ← pRat
     let initL ← pList (pN m.sp.dims.length pInt)
     let cfg : PatCfg := { nPositions := nPos, randRestP := rrp, nDims := m.sp.dims.length, geo := m.sp.geo }
-    pure ({ m with d := { nInits := nInits, bst := { pat := some (cfg, { initL := initL }) } }, call := none, warm := [], steps := #[], byCall := #[] }, ["ok"])
+    pure ({ m with d := { nInits := nInits, bst := { pat := some (cfg, { initL := initL }) } }, call := none, warm := [], steps := #[], byCall := #[], pending := #[] }, ["ok"])
   | "tstate" =>
     match m.d.bst.pat with
     | some (_, g) =>
@@ -408,7 +417,7 @@ def exec (m : M) (cmd : String) : P (M × List String) := do
                 s!"best={showOpt showPos t.posBest}:{showF t.scoreBest} valid={showList (fun e => showOpt showPos e.1 ++ ":" ++ showF e.2) (t.positionsValid.zip t.scoresValid)} " ++
                 s!"nthTrial={t.nthTrial} nthInit={t.nthInit} epsMod={showRat l.epsMod} tapeLeft={l.tape.length}"])
     | none => pure (m, ["err:no-local-backend"])
-  | "drun" => pure (runCall m)
+  | "drun" => pure (runCall (flushTape m))
   -- ---------------- kernels (GFO.Model.Kernels)
   | "conv2pos" => do
     let ms ← pList pInt; let size ← pNat; let v ← pList pF; let rnd ← pList pInt
@@ -538,16 +547,27 @@ def handle (m : M) (line : String) : M × List String :=
     | .ok ((m', out), rest) => if rest.isEmpty then (m', out) else (m', ["bad:trailing-tokens"])
     | .error e => (m, ["bad:" ++ e])
 
-partial def loop (h : IO.FS.Stream) (out : IO.FS.Stream) (m : M) : IO Unit := do
+/-- the tape lines of a scenario are buffered in `pend` (threaded linearly: no copying) and handed to the state at the next
+    other command -/
+partial def loop (h : IO.FS.Stream) (out : IO.FS.Stream) (m : M) (pend : Array Draw) : IO Unit := do
   let line ← h.getLine
   if line.isEmpty then return ()
   let l := line.trimAscii.toString
-  if l.startsWith "#" then loop h out m else
-  let (m', outs) := handle m l
-  for o in outs do out.putStrLn o
-  loop h out m'
+  if l.startsWith "#" then loop h out m pend else
+  if l.startsWith "lt " then
+    let toks := (l.splitOn " ").filter (· ≠ "")
+    match (pDraw m.sp.dims.length).run (toks.drop 1) with
+    | .ok (e, rest) =>
+      if rest.isEmpty then loop h out m (pend.push e)
+      else do out.putStrLn "bad:trailing-tokens"; loop h out m pend
+    | .error e => do out.putStrLn ("bad:" ++ e); loop h out m pend
+  else
+    let m1 : M := if pend.isEmpty then m else { m with pending := m.pending ++ pend }
+    let (m', outs) := handle m1 l
+    for o in outs do out.putStrLn o
+    loop h out m' #[]
 
 def main : IO Unit := do
   let stdin ← IO.getStdin
   let stdout ← IO.getStdout
-  loop stdin stdout {}
+  loop stdin stdout {} #[]
